@@ -95,7 +95,32 @@ pub fn walk_expr_mut(e: &mut Expr, fe: &mut dyn FnMut(&mut Expr), fb: &mut dyn F
     }
 }
 
-pub const N_KINDS: usize = 26;
+/// does the block mention variable `name` (as a value or as the root of an assigned place)?
+pub fn block_mentions(b: &mut Block, name: &str) -> bool {
+    let mut found = false;
+    let mut fe = |e: &mut Expr| match e {
+        Expr::Var(n) if n == name => found = true,
+        Expr::Assign(p, _) | Expr::Compound(p, _, _) if p.var == name => found = true,
+        _ => {}
+    };
+    let mut fb = |_b: &mut Block| {};
+    walk_block_mut(b, &mut fe, &mut fb);
+    found
+}
+
+pub fn expr_mentions(e: &mut Expr, name: &str) -> bool {
+    let mut found = false;
+    let mut fe = |e: &mut Expr| match e {
+        Expr::Var(n) if n == name => found = true,
+        Expr::Assign(p, _) | Expr::Compound(p, _, _) if p.var == name => found = true,
+        _ => {}
+    };
+    let mut fb = |_b: &mut Block| {};
+    walk_expr_mut(e, &mut fe, &mut fb);
+    found
+}
+
+pub const N_KINDS: usize = 32;
 
 pub fn kind_name(k: usize) -> &'static str {
     [
@@ -125,6 +150,12 @@ pub fn kind_name(k: usize) -> &'static str {
         "recursive-type-or-constant",
         "assign-to-constant",
         "return-in-constant-initialiser",
+        "pattern-with-too-few-binders",
+        "pattern-with-an-extra-binder",
+        "pattern-of-an-unknown-variant",
+        "then-local-used-in-else-branch",
+        "arm-binder-used-in-another-arm",
+        "loop-variable-used-after-the-loop",
     ][k]
 }
 
@@ -282,6 +313,66 @@ pub fn apply(prog: &Program, kind: usize, c: &mut Choices) -> Option<(Program, S
                                 }
                             }
                         }
+                        (26, Expr::Match(_, arms)) => {
+                            // drop the last binder of an arm whose body does not mention it
+                            let idx = arms.iter_mut().position(|a| {
+                                a.variant.is_some() && !a.binds.is_empty() && {
+                                    let b = a.binds.last().unwrap().clone();
+                                    !(block_mentions(&mut a.body, &b) || a.guard.as_mut().map(|g| expr_mentions(g, &b)).unwrap_or(false))
+                                }
+                            });
+                            if let Some(idx) = idx {
+                                if hit(&mut count) {
+                                    let b = arms[idx].binds.pop().unwrap();
+                                    desc = format!("binder `{b}` dropped from the pattern of variant `{}` (the variant has more fields than binders now)", arms[idx].variant.clone().unwrap());
+                                    applied = true;
+                                }
+                            }
+                        }
+                        (27, Expr::Match(_, arms)) => {
+                            if let Some(idx) = arms.iter().position(|a| a.variant.is_some()) {
+                                if hit(&mut count) {
+                                    arms[idx].binds.push("zz_extra".into());
+                                    desc = format!("an extra binder added to the pattern of variant `{}`", arms[idx].variant.clone().unwrap());
+                                    applied = true;
+                                }
+                            }
+                        }
+                        (28, Expr::Match(_, arms)) => {
+                            if let Some(idx) = arms.iter().position(|a| a.variant.is_some()) {
+                                if hit(&mut count) {
+                                    desc = format!("pattern `{}` renamed to the unknown variant `ZzNoVariant`", arms[idx].variant.clone().unwrap());
+                                    arms[idx].variant = Some("ZzNoVariant".into());
+                                    applied = true;
+                                }
+                            }
+                        }
+                        (29, Expr::If(_, then, Some(els))) => {
+                            let local = then.stmts.iter().find_map(|s| match s {
+                                Stmt::Let(n, _, _) => Some(n.clone()),
+                                _ => None,
+                            });
+                            if let Some(n) = local {
+                                if hit(&mut count) {
+                                    els.stmts.insert(0, Stmt::Let("zz".into(), None, Expr::Var(n.clone())));
+                                    desc = format!("`{n}`, declared in the then-branch, used in the else-branch");
+                                    applied = true;
+                                }
+                            }
+                        }
+                        (30, Expr::Match(_, arms)) => {
+                            let from = arms.iter().position(|a| !a.binds.is_empty());
+                            if let Some(i) = from {
+                                if arms.len() >= 2 && hit(&mut count) {
+                                    let b = arms[i].binds[0].clone();
+                                    let j = if i + 1 < arms.len() { i + 1 } else { 0 };
+                                    arms[j].body.stmts.insert(0, Stmt::Let("zz".into(), None, Expr::Var(b.clone())));
+                                    arms[j].braces = true;
+                                    desc = format!("`{b}`, bound by one match arm, used in another arm");
+                                    applied = true;
+                                }
+                            }
+                        }
                         (13, Expr::Match(_, arms)) => {
                             if let Some(pos) = arms.iter().position(|a| a.variant.is_none() && a.guard.is_none()) {
                                 if hit(&mut count) {
@@ -390,6 +481,19 @@ pub fn apply(prog: &Program, kind: usize, c: &mut Choices) -> Option<(Program, S
                             _ => {}
                         }
                         i += 1;
+                    }
+                    if kind == 31 {
+                        for i in 0..b.stmts.len() {
+                            if let Stmt::Expr(Expr::For(x, _, _)) = &b.stmts[i] {
+                                let x = x.clone();
+                                if hit(&mut count) {
+                                    b.stmts.insert(i + 1, Stmt::Let("zz".into(), None, Expr::Var(x.clone())));
+                                    desc = format!("loop variable `{x}` used after the `for` loop");
+                                    applied = true;
+                                    return;
+                                }
+                            }
+                        }
                     }
                     if kind == 8 {
                         // a nested block statement that declares a variable: use it after the block
